@@ -39,3 +39,12 @@ def _always(failure, fd):
 
 
 # matchers are added next to the harness that needs them (vf/bounded/*.py import this module)
+
+
+@matcher("payload_cond")
+def _payload_cond(failure, fd):
+    """fd['cond']: Python boolean expression over the failure payload (names: input, detail, obligation, ...)"""
+    g = {"__builtins__": {"any": any, "all": all, "len": len, "isinstance": isinstance, "str": str, "int": int, "repr": repr,
+                          "float": float, "bool": bool, "list": list, "tuple": tuple, "type": type, "set": set, "sorted": sorted}}
+    g.update(failure)
+    return bool(eval(fd["cond"], g))
